@@ -10,7 +10,9 @@ import (
 	"sort"
 	"strings"
 
+	sdkmath "cosmossdk.io/math"
 	sdk "github.com/cosmos/cosmos-sdk/types"
+	banktypes "github.com/cosmos/cosmos-sdk/x/bank/types"
 	"github.com/ethereum/go-ethereum/accounts/abi"
 	"github.com/ethereum/go-ethereum/common"
 	"github.com/ethereum/go-ethereum/crypto"
@@ -44,7 +46,7 @@ type env struct {
 }
 
 func Run(run *vh.Run) {
-	variants := run.N(1, 20)
+	variants := run.N(2, 20)
 	for v := 0; v < variants; v++ {
 		label := fmt.Sprintf("variant-%d", v)
 		if !run.WantCase(label) {
@@ -66,7 +68,7 @@ func one(run *vh.Run, label string, variant int) {
 	e.sender, e.owner, e.rcpt, e.deploy = vh.NewAcct(r), vh.NewAcct(r), vh.NewAcct(r), vh.NewAcct(r)
 	var accts []vh.GenAccount
 	for _, a := range []*vh.Acct{e.sender, e.owner, e.rcpt, e.deploy} {
-		accts = append(accts, vh.GenAccount{Addr: a.Addr, Coins: vh.NativeCoins(100000)})
+		accts = append(accts, vh.GenAccount{Addr: a.Addr, Coins: vh.NativeCoins(100000).Add(sdk.NewCoin(vh.SecondDenom, sdkmath.NewInt(1_000_000)))})
 	}
 	e.c = vh.NewChain(vh.Config{Seed: r.U64(), NumVals: 2, Erc20Native: true, StakingCPC: true, Accounts: accts, Inflation: true})
 	defer e.c.Cleanup()
@@ -107,6 +109,22 @@ func one(run *vh.Run, label string, variant int) {
 	kinds := map[string]common.Address{}
 	for _, m := range e.methods {
 		kinds[m.Kind] = m.Addr
+	}
+	// odd variants: coins of another denomination sit at the precompiles' own addresses (sent there by mistake, as happens):
+	// a read-only call tree that merely touches such an address may not remove them
+	if variant%2 == 1 {
+		var msgs []sdk.Msg
+		var ks []string
+		for k := range kinds {
+			ks = append(ks, k)
+		}
+		sort.Strings(ks)
+		for _, k := range ks {
+			a := kinds[k]
+			msgs = append(msgs, banktypes.NewMsgSend(e.owner.Acc(), a.Bytes(), sdk.NewCoins(sdk.NewCoin(vh.SecondDenom, sdkmath.NewInt(int64(1+r.Intn(1000)))))))
+		}
+		mustOK(run, label, "park a second denomination at the precompile addresses", c.NextBlock([][]byte{c.CosmosTx(e.owner, msgs, &vh.CosmosOpts{Gas: 600000})}, nil))
+		run.Count("worlds_with_foreign_coins_parked_at_precompile_addresses", 1)
 	}
 	// final forwarders L[kind][opcode]
 	price := new(big.Int).Mul(c.BaseFee(), big.NewInt(3))
